@@ -48,6 +48,12 @@ CHECKS["C05"] = dict(
     text="~1,700 configuration pairs / ~10k paired executions per quick run over generated programs and corpus functions (e2e snippets, examples); two thirds of the pairs provably change the generated Sierra (measured), so the comparison is not vacuous.",
     note="Trusted: my result normaliser (arrays/boxes by content, enum padding ignored, dictionaries opaque). Excluded by the statement: gas-introspection functions and pairs ending 'Out of gas'.")
 
+CHECKS["C06"] = dict(
+    level="exploration", design="DESIGN.md 3/C06",
+    technique="exhaustive enumeration (all 65,536 operand pairs of u8 and i8) + boundary cross products + seeded random operands for wider types, against a BigInt model of every operation",
+    text="~1M executions per quick run: for each of u8..u128, i8..i128, u256, felt252 a generated crate exposes the operator forms (+ - * / %, unary -) and a batch of overflowing/wrapping/checked/saturating variants, comparisons, bitwise ops, sqrt, wide_mul, div_rem, felt252_div and try_into to every other type; results and panic data are compared with the mathematical model. The 8-bit slice is exhaustive; wider types are explored on boundary sets (2^k, 2^k+-1, MIN/MAX+-d, perfect squares +-1) and random operands.",
+    note="Trusted: the BigInt model in props/c06.rs (which panic / None / overflow flag is due when). Level is exploration overall; the evidence names the exhaustive slice separately. BoundedInt helper impls and the u512 family are not covered yet.")
+
 PENDING_REASON = "check not built yet in this session (planned in DESIGN.md section 3; the property itself is amenable to the technique)"
 
 def main():
